@@ -11,9 +11,10 @@ from twisted.python.failure import Failure
 if TYPE_CHECKING:
     from twisted.web.template import Flattenable
 
+# The control characters that XML 1.0 does not allow (everything below U+0020 but tab, newline and carriage return).
 _RE_CONTROL = re.compile((
     '[' + ''.join(
-    ch for ch in map(chr, range(0, 32)) if ch not in '\r\n\t\f'
+    ch for ch in map(chr, range(0, 32)) if ch not in '\r\n\t'
     ) + ']'
     ).encode())
 
